@@ -72,6 +72,7 @@ class OneShot:
         calls, signals = [], []
         counts = {}
         phase = 0
+        callno = 0
         try:
             f = open(self.log, "r", errors="replace")
         except FileNotFoundError:
@@ -91,6 +92,8 @@ class OneShot:
                     mm = re.search(MARK + r"[^,]*, (?:0x)?(\d)", ln)
                     if mm:
                         phase = int(mm.group(1))
+                        if phase == 1:
+                            callno += 1
                         continue
-                calls.append({"name": name, "ordinal": counts[name], "text": ln.strip()[:200], "phase": phase})
+                calls.append({"name": name, "ordinal": counts[name], "text": ln.strip()[:200], "phase": phase, "callno": callno})
         return calls, signals
